@@ -1,3 +1,5 @@
+pub mod exchange;
+pub mod exgen;
 pub mod recv;
 pub mod redirect;
 pub mod sender;
